@@ -3,6 +3,7 @@
 # (relative time in ms, [ops]) that `timeline` turns into `T dt` steps, so that polls can be aimed 1 ms before / at / after every
 # timeout of the library (open 0/200 ms, address claim 250 ms, ISO-TP 50/100 ms, pending information 187+src*8 / 187+src*10 ms,
 # heartbeat offset 10 s / period, reassembly slot age 100 ms).
+from nodesim import own_addr
 import random
 import nodegen as G
 
@@ -110,7 +111,7 @@ def iso_pending(r, mode, ndev, src, pgn, variant):
         ev.append((6, ['A']))
         if variant == 'broadcast' and ndev > 1:
             for i in range(ndev):
-                di = 187 + ((src + i) & 255) * mul
+                di = 187 + own_addr(src, i) * mul
                 ev += [(5 + di + x, ['P']) for x in (-1, 0, 1, 2)]
         else:
             ev += [(5 + d + x, ['P']) for x in (-2, -1, 0, 1, 2, 3)]
